@@ -22,7 +22,11 @@ LEVEL = "model_checking"
 
 CHECKS = ["Pow", "NumRounds", "InitMerkle1", "InitMerkle2", "Consistency0", "Consistency1",
           "LayerMerkle0", "LayerMerkle1", "Final"]
-LAYER_KINDS = {"coset_edit", "coset_recommit", "layer_path", "layer_delta", "layer_replace"}
+LAYER_KINDS = {"coset_edit", "coset_recommit", "layer_path", "layer_delta", "layer_replace", "layer_cap", "coset_forge"}
+# deviations that only a Merkle check reads when the tree height equals the cap height (EMPTY path: the
+# whole check is hash(leaf) == cap[index]); the replay must contain path_len = 0 instances of each
+EMPTY_PATH_GUARD = {"fri": ["layer_cap", "init_cap", "coset_forge", "coset_edit", "leaf_edit", "leaf_kernel"],
+                    "batch": ["layer_cap", "init_cap", "coset_forge", "coset_edit", "leaf_edit"]}
 JOIN_KINDS = {"claim_edit2", "leaf_edit2", "leaf_recommit2"}
 # harness deviation -> deviation of the specification it instantiates
 KIND_MAP = {"salt_edit": "init_path",                 # only the Merkle check reads a salt
@@ -54,7 +58,9 @@ def build_catalogue(rows):
         kind = d["k"]
         layered = kind in LAYER_KINDS or kind in JOIN_KINDS
         base = d["l"] if kind in LAYER_KINDS else (r["enter"] if kind in JOIN_KINDS else 0)
-        e = cat.setdefault(kind, {"class": r["class"], "cls": {}, "scenarios": set()})
+        e = cat.setdefault(kind, {"class": r["class"], "cls": {}, "scenarios": set(), "path_lens": set()})
+        if kind in ("layer_cap", "init_cap"):
+            e["path_lens"].add(d["j"])        # scenario attribute: 0 = tree height equals cap height
         if e["class"] != r["class"]:
             raise ToolError("inconsistent class for %s" % kind)
         e["scenarios"].add(json.dumps([d, r["ps"], r["bs"], r["batched"], r["nl"]], sort_keys=True))
@@ -73,7 +79,7 @@ def build_catalogue(rows):
 def catalogue_json(cat):
     out = {}
     for k, e in sorted(cat.items()):
-        out[k] = {"class": e["class"], "scenarios": len(e["scenarios"]),
+        out[k] = {"class": e["class"], "scenarios": len(e["scenarios"]), "path_lens": sorted(e.get("path_lens", [])),
                   "cls": {c: {"total": v["t"], "accepted": v["a"], "generic_total": v["gt"], "generic_accepted": v["ga"],
                               "first": sorted(map(list, v["first"])), "fails": sorted([list(map(list, f)) for f in v["fails"]])}
                           for c, v in sorted(e["cls"].items())}}
@@ -90,10 +96,13 @@ def check_catalogue(cat):
             if e["class"] == "reject":
                 if c == "miss" and v["a"] != v["t"]:
                     raise ToolError("catalogue: %s misses rejected in the model" % k)
-                if c != "miss" and v["ga"] != 0:
+                if c not in ("miss", "off") and v["ga"] != 0:
                     raise ToolError("catalogue: %s/%s accepted under generic challenges" % (k, c))
             if e["class"] == "partial" and not (v["gt"] > 0 and v["ga"] < v["gt"]):
                 raise ToolError("catalogue: %s is not rejected for a positive fraction" % k)
+    for k in ("layer_cap", "init_cap"):
+        if 0 not in cat.get(k, {}).get("path_lens", ()):
+            raise ToolError("catalogue lacks the 'tree height = cap height' (empty path) scenario of %s" % k)
 
 
 def expected_verdict(cat, kind, classes, binding_bits):
@@ -198,7 +207,10 @@ def compare_cases(chk, cat, rows, engine, stats, events, violate=True):
             stats["evaluations"] += 1
             kind, classes, v = d["kind"], d["classes"], d["verdict"]
             stats["keys"].add(json.dumps([engine, kind, d["mode"], cfg.get("strategy", "Fixed").split("(")[0], nl, d.get("last"),
-                                          sorted(set(classes)), v["v"]]))
+                                          sorted(set(classes)), v["v"], d.get("path_len") == 0]))
+            if d.get("path_len") == 0 and any(c != "miss" for c in classes):
+                ep = stats.setdefault("empty_path", {})
+                ep[engine + "/" + kind] = ep.get(engine + "/" + kind, 0) + 1
             if v["v"] == "panic":
                 stats["panics"].append({"engine": engine, "case": r["case"], "kind": kind, "err": v["err"][:200]})
             observed = "accept" if v["v"] == "accept" else "reject"
@@ -353,6 +365,13 @@ def run(chk, tier):
     evp = os.path.join(common.OUT, "c05_events.ndjson")
     common.write_ndjson(evp, events)
     validate_events(chk, evp, "honest proofs, final lengths and pow verdicts of the real code", "C05/real", workers=8)
+    # coverage guard: the Merkle-only deviations must have been replayed where the path is empty
+    ep = stats.get("empty_path", {})
+    for eng, kinds in EMPTY_PATH_GUARD.items():
+        for kd in kinds:
+            if ep.get(eng + "/" + kd, 0) == 0:
+                raise ToolError("coverage guard: no '%s' deviation on a tree whose height equals the cap height (%s engine)" % (kd, eng))
+    chk.extra["empty_path_cases"] = ep
     chk.evaluations += stats["evaluations"]
     chk.nontrivial += len(stats["keys"])
     chk.traces += stats["matched_cases"]
